@@ -75,3 +75,67 @@ Definition epoch3_ok st (e : epoch3) : Prop :=
 Definition file3_ok (f : file3) : Prop :=
   trimmed (f3_marker f) = true /\ len (f3_marker f) <= 60 /\
   systypes_ok (f3_systypes f) /\ Forall (epoch3_ok (f3_systypes f)) (f3_epochs f).
+
+(* ------------------------------------------------------------------------------------------ RINEX 2 *)
+Record sat2 := { s2_id : string; s2_cells : list cell; s2_cut : bool }.
+Record epoch2 := { e2_t : epoch_t; e2_sats : list sat2 }.
+Record file2 := { f2_marker : string;
+                  f2_types : list string;                 (* # / TYPES OF OBSERV *)
+                  f2_first : epoch_t;                     (* TIME OF FIRST OBS (GPS) *)
+                  f2_epochs : list epoch2 }.
+
+(* # / TYPES OF OBSERV: I6, 9(4X,A2); continuation 6X, 9(4X,A2) *)
+Definition types_label_v2 := "# / TYPES OF OBSERV".
+Definition types_body_v2 (first : option Z) (chunk : list string) : string :=
+  match first with Some n => render_int 6 n | None => spaces 6 end ++ cat (map (fun t => "    " ++ t) chunk).
+Definition types_lines_v2 (types : list string) : list string :=
+  match chunks (List.length types) 9 types with
+  | [] => []
+  | c0 :: cr => hdr_line (types_body_v2 (Some (Z.of_nat (List.length types))) c0) types_label_v2
+                :: map (fun c => hdr_line (types_body_v2 None c) types_label_v2) cr
+  end.
+(* TIME OF FIRST OBS: 5I6, F13.7, 5X, A3 *)
+Definition first_obs_pieces (t : epoch_t) : list string :=
+  [render_int 6 (ep_y t); render_int 6 (ep_mo t); render_int 6 (ep_d t); render_int 6 (ep_h t); render_int 6 (ep_mi t);
+   render_F 13 7 (ep_s7 t); "     "; "GPS"].
+Definition first_obs_line (t : epoch_t) : string := hdr_line (cat (first_obs_pieces t)) "TIME OF FIRST OBS".
+Definition render_header2 (f : file2) : list string :=
+  hdr_line (f2_marker f) "MARKER NAME" :: types_lines_v2 (f2_types f) ++ [first_obs_line (f2_first f); end_of_header].
+
+(* EPOCH/SAT: 1X,I2.2, 4(1X,I2), F11.7, 2X,I1, I3, 12(A1,I2), F12.9; continuation 32X, 12(A1,I2) *)
+Definition epoch_head_v2 (t : epoch_t) (nsat : Z) : list string :=
+  [" " ++ int_field (ep_zero t) 2 (ep_y t mod 100); " " ++ int_field (ep_zero t) 2 (ep_mo t); " " ++ int_field (ep_zero t) 2 (ep_d t);
+   " " ++ int_field (ep_zero t) 2 (ep_h t); " " ++ int_field (ep_zero t) 2 (ep_mi t); render_F 11 7 (ep_s7 t); "  0";
+   render_int 3 nsat].
+Definition epoch_first_line_v2 (t : epoch_t) (nsat : Z) (ids : list string) : string :=
+  cat (epoch_head_v2 t nsat) ++ cat ids
+  ++ match ep_clk t with None => "" | Some c => spaces (36 - 3 * List.length ids) ++ render_F 12 9 c end.
+Definition epoch_cont_line_v2 (ids : list string) : string := spaces 32 ++ cat ids.
+Definition epoch_lines_v2 (t : epoch_t) (ids : list string) : list string :=
+  match chunks (List.length ids) 12 ids with
+  | [] => [epoch_first_line_v2 t 0 []]
+  | c0 :: cr => epoch_first_line_v2 t (Z.of_nat (List.length ids)) c0 :: map epoch_cont_line_v2 cr
+  end.
+Definition render_sat_v2 (s : sat2) : list string := render_obs_v2 (s2_cut s) (s2_cells s).
+Definition render_epoch2 (e : epoch2) : list string :=
+  epoch_lines_v2 (e2_t e) (map s2_id (e2_sats e)) ++ concat (map render_sat_v2 (e2_sats e)).
+Definition render_body_v2 (es : list epoch2) : list string := concat (map render_epoch2 es).
+Definition render_file2 (f : file2) : list string := render_header2 f ++ render_body_v2 (f2_epochs f).
+
+(* well-formedness *)
+Definition type2_ok (t : string) : Prop := len t = 2 /\ is_token t = true.
+Definition sat2_id_ok (id : string) : Prop :=
+  exists a b c, id = String a (String b (String c "")) /\ (65 <= nat_of_ascii a <= 90) /\
+                (b = " "%char \/ (48 <= nat_of_ascii b <= 57)) /\ (48 <= nat_of_ascii c <= 57).
+Definition sat2_ok (ntypes : nat) (s : sat2) : Prop :=
+  sat2_id_ok (s2_id s) /\ List.length (s2_cells s) = ntypes /\ Forall cell_wf (s2_cells s).
+Definition epoch2_ok (century : Z) (ntypes : nat) (e : epoch2) : Prop :=
+  epoch_t_wf (e2_t e) /\ (ep_y (e2_t e) / 100 = century)%Z /\
+  match ep_clk (e2_t e) with None => True | Some c => fits_F 12 9 c end /\
+  fits_int 3 (Z.of_nat (List.length (e2_sats e))) /\ Forall (sat2_ok ntypes) (e2_sats e).
+Definition file2_ok (f : file2) : Prop :=
+  trimmed (f2_marker f) = true /\ len (f2_marker f) <= 60 /\
+  f2_types f <> [] /\ NoDup (f2_types f) /\ Forall type2_ok (f2_types f) /\ fits_int 6 (Z.of_nat (List.length (f2_types f))) /\
+  epoch_t_wf (f2_first f) /\ (1000 <= ep_y (f2_first f) < 10000)%Z /\
+  fits_int 6 (ep_y (f2_first f)) /\ fits_F 13 7 (ep_s7 (f2_first f)) /\
+  Forall (epoch2_ok (ep_y (f2_first f) / 100) (List.length (f2_types f))) (f2_epochs f).
